@@ -38,9 +38,9 @@ def _matmul(linear_ops, kp_shape, rhs):
     res = rhs.contiguous().expand(*output_batch_shape, *rhs.shape[-2:])
     num_cols = rhs.size(-1)
     for linear_op in linear_ops:
-        res = res.view(*output_batch_shape, linear_op.size(-1), -1)
+        res = res.reshape(*output_batch_shape, linear_op.size(-1), -1)
         factor = linear_op._matmul(res)
-        factor = factor.view(*output_batch_shape, linear_op.size(-2), -1, num_cols).transpose(-3, -2)
+        factor = factor.reshape(*output_batch_shape, linear_op.size(-2), -1, num_cols).transpose(-3, -2)
         res = factor.reshape(*output_batch_shape, -1, num_cols)
     return res
 
@@ -53,9 +53,9 @@ def _t_matmul(linear_ops, kp_shape, rhs):
     res = rhs.contiguous().expand(*output_batch_shape, *rhs.shape[-2:])
     num_cols = rhs.size(-1)
     for linear_op in linear_ops:
-        res = res.view(*output_batch_shape, linear_op.size(-2), -1)
+        res = res.reshape(*output_batch_shape, linear_op.size(-2), -1)
         factor = linear_op._t_matmul(res)
-        factor = factor.view(*output_batch_shape, linear_op.size(-1), -1, num_cols).transpose(-3, -2)
+        factor = factor.reshape(*output_batch_shape, linear_op.size(-1), -1, num_cols).transpose(-3, -2)
         res = factor.reshape(*output_batch_shape, -1, num_cols)
     return res
 
